@@ -402,5 +402,7 @@ def run(chk, ctx):
     c02.r3(chk, ctx)                                   # the terminal event agrees with the record (one status, one terminal event)
     c05.r2(chk, ctx, ctx.protocol(), ctx.mod("state_engine"))   # join state deleted early => late events append after the end
     c06.r3(chk, ctx, ctx.protocol(), ctx.mod("state_engine"))   # gate dominates every history update in notify
+    from . import round3
+    round3.start_resets_record(chk, ctx)
     chk.assume("state Types range over the J2119 schema's list (C18.R1 checks the engine has a handler for each)")
     chk.assume("a handler asl_state_X (and its delegate / nested callbacks) only runs with state_type == X (prefix dispatch)")
